@@ -71,6 +71,8 @@ type storeSUT struct {
 	s      *inmem.Store
 	vsn    uint64
 	cancel context.CancelFunc
+
+	pendingRestore *inmem.Restoration // between RestoreBegin and RestoreCommit (caller synchronises)
 }
 
 func NewStore() (SUT, error) {
@@ -142,6 +144,35 @@ func (b *storeSUT) Restore(rs []*pbresource.Resource) error {
 	r.Commit()
 	return nil
 }
+// Windowed is implemented by a SUT whose restore can be driven in the two steps the storage API has:
+// RestoreBegin = Store.Restore() + Restoration.Apply for every resource (builds the new database, nothing
+// observable changes), RestoreCommit = Restoration.Commit() (swaps it in). Calls made in between run
+// against the old database.
+type Windowed interface {
+	RestoreBegin([]*pbresource.Resource) error
+	RestoreCommit()
+}
+
+func (b *storeSUT) RestoreBegin(rs []*pbresource.Resource) error {
+	r, err := b.s.Restore()
+	if err != nil {
+		return err
+	}
+	for _, x := range rs {
+		if err := r.Apply(x); err != nil {
+			r.Abort()
+			return err
+		}
+	}
+	b.pendingRestore = r
+	return nil
+}
+
+func (b *storeSUT) RestoreCommit() {
+	b.pendingRestore.Commit()
+	b.pendingRestore = nil
+}
+
 func (b *storeSUT) Close() { b.cancel() }
 
 // ---------------------------------------------------------------- raft.Backend over hashicorp/raft
